@@ -189,6 +189,7 @@ class BatchLoader(LoaderBase):
         """Return a new instance with binned images."""
         if binsize == 1:
             return self.copy()
+        binsize = int(binsize)  # NOTE: -(np.uint8(2) - 1) is 255
         tr = -(binsize - 1) / 2 * self.scale
         molecules = self.molecules.translate([tr, tr, tr])
         _images: dict[Hashable, NDArray[np.float32] | da.Array] = {}
